@@ -243,11 +243,13 @@ def explore_txn(history, txn, seed, acc, byte_cuts, rich=False):
         build_start(history, root)
         initial = crashfs.read_image(root)
         olddump = dump(FileStorage(root).open_index())
-        rst = crashfs.RecordingStorage(root)
-        ix = rst.open_index()
-        random.seed(seed + 1)
-        outcome = run_txn(ix, txn, mark=rst.mark)
-        ix.close()
+        # OS-level recording: the real FileStorage methods run unmodified and
+        # every system call they issue under the index root is a crash point
+        with crashfs.OsRecorder(root) as rst:
+            ix = rst.storage().open_index()
+            random.seed(seed + 1)
+            outcome = run_txn(ix, txn, mark=rst.mark)
+            ix.close()
         log = rst.log
         finaldump = dump(FileStorage(root).open_index())
         if outcome == "rolledback":
